@@ -25,6 +25,7 @@ pub(crate) fn point(name: &'static str) {
 /// Pass-through wrappers around the synchronization primitives of this crate that report to the
 /// point hook (as `"sync"`) before every operation, so that a harness can park a thread between
 /// any two of them - including in windows that only exist after a change to the code.
+#[allow(dead_code, reason = "complete wrappers, whatever the crate uses today")]
 pub(crate) mod sync {
     use std::sync::Arc;
 
@@ -57,6 +58,31 @@ pub(crate) mod sync {
     impl<T> ArcSwapAny<Option<Arc<T>>> {
         pub(crate) const fn const_empty() -> Self {
             Self(arc_swap::ArcSwapOption::const_empty())
+        }
+    }
+
+    /// `std::sync::OnceLock` reporting every operation to the point hook.
+    #[derive(Debug)]
+    pub(crate) struct OnceLock<T>(std::sync::OnceLock<T>);
+
+    impl<T> OnceLock<T> {
+        pub(crate) const fn new() -> Self {
+            Self(std::sync::OnceLock::new())
+        }
+
+        pub(crate) fn get(&self) -> Option<&T> {
+            point("sync");
+            self.0.get()
+        }
+
+        pub(crate) fn set(&self, value: T) -> Result<(), T> {
+            point("sync");
+            self.0.set(value)
+        }
+
+        pub(crate) fn get_or_init<F: FnOnce() -> T>(&self, f: F) -> &T {
+            point("sync");
+            self.0.get_or_init(f)
         }
     }
 }
